@@ -50,6 +50,17 @@ Theorem c02_keyspace_commands_see_no_expired :
   forall now d name parts k, indexed d -> bmem name lazy_keyspace_commands = true ->
   fresh now (fst (expire_before now d name parts)) k.
 Proof. exact expire_before_keyspace_fresh. Qed.
+(** [indexed] is an invariant: it holds of the empty database and is preserved by the lazy
+    expiry step and by every command of the string / key-space family - the only commands
+    that create or move a deadline (SET .. EX/PX, SETEX, PSETEX, EXPIRE, PEXPIRE, PERSIST,
+    RENAME, RENAMENX, GETSET, MSET, DEL, FLUSHDB ...); the collection families keep the
+    deadline of the entry they rewrite *)
+Theorem c02_indexed_invariant :
+  indexed empty_db /\
+  (forall now d name parts, indexed d -> indexed (fst (expire_before now d name parts))) /\
+  (forall now d name parts r d', indexed d -> exec_strings now d name parts = Some (r, d') -> indexed d').
+Proof. split; [exact indexed_empty|split; [exact expire_before_indexed|exact exec_strings_indexed]]. Qed.
+
 (** NEVER EARLY, NEVER SPURIOUS, for the lazy path: a key that has not reached its deadline
     (or has none) is left exactly as it is; nothing is created or altered; a key disappears
     only if its stored deadline has passed *)
